@@ -588,6 +588,14 @@ def run_property(pid, tier, seed, replay=None):
         with open(rp, "w") as f:
             f.write(v[2])
             f.write("description: %s\nseed: %d\ntier: %s\nother_failing_cases: %d\n" % (v[1], seed, tier, len(concrete) - 1))
+            kinds = {}
+            for w in concrete:
+                m = re.search(r"^case: (\S+)", w[2], re.M)
+                kinds[m.group(1) if m else "?"] = kinds.get(m.group(1) if m else "?", 0) + 1
+            f.write("failing_by_kind: %s\n" % " ".join("%s=%d" % kv for kv in sorted(kinds.items())))
+            for w in concrete[1:4]:
+                m = re.search(r"^case: (.*)$", w[2], re.M)
+                f.write("also_failing: %s\n" % (m.group(1)[:300] if m else "?"))
             for b in broken:
                 f.write("broken_obligation: %s: %s\n" % (b[0], b[1][:600]))
         print("VIOLATION property=%s replay=%s" % (pid, os.path.relpath(rp, VERIF)))
